@@ -80,6 +80,28 @@ class C13(XsProp):
                     pa = ' | '.join('push %s' % cells.fmt(a) for a in args)
                     pt = ' | '.join('push %s' % cells.fmt(a) for a in targs)
                     cs.append('%s | clone | %s | eval %s | stack | use 1 | %s | eval %s | stack' % (pre, pa, hexsrc(w), pt, hexsrc(w)))
+        # the words that honour the formatting tag (concat, join) must still ignore every OTHER tag, on every element kind
+        for _ in range(150 if tier == 'quick' else 3000):
+            def el(d=0):
+                k = rng.random()
+                if k < 0.3: return ('I', rng.randint(-5, 99))
+                if k < 0.6: return ('S', rng.choice([b'', b'a', b'ss', b'\xc3\xa9']))
+                if k < 0.7: return ('B', rng.choice(['', '1010', '11110000']))
+                if d > 1: return ('I', 1)
+                return ('V', [el(d + 1) for _ in range(rng.randint(0, 3))])
+            def tg(x, d=0):
+                if rng.random() < 0.5:
+                    y = ('V', [tg(e, d + 1) for e in x[1]]) if x[0] == 'V' else x
+                    return ('G', y, tagm) if rng.random() < 0.7 else y
+                return x
+            vec = [el() for _ in range(rng.randint(1, 4))]
+            tvec = [tg(x) for x in vec]
+            if tvec == vec:
+                tvec[0] = ('G', vec[0], tagm)
+            w = rng.choice(['concat', '"," join', '"" join'])
+            pre = 'xs limits 3000 200 -'
+            cs.append('%s | clone | push %s | eval %s | stack | use 1 | push %s | eval %s | stack' % (
+                pre, cells.fmt(('V', vec)), hexsrc(w), cells.fmt(('V', tvec)), hexsrc(w)))
         # the tag words behave as a map attached to the value, without altering it
         for _ in range(60 if tier == 'quick' else 1500):
             v = cells.rand_cell(rng, tags=0.3)
